@@ -87,7 +87,13 @@ class _TempfileProxy:
         return tempfile.gettempdir()
 
 
+_SETUP_DONE = []
+
+
 def setup():
+    if _SETUP_DONE:
+        return
+    _SETUP_DONE.append(1)
     serio.setup()
     m = tinyptycho.setup()
     pmod = m["pmod"]
